@@ -3,6 +3,7 @@ package proxy
 import (
 	"fmt"
 	"net"
+	"strconv"
 	"strings"
 	"time"
 
@@ -113,10 +114,7 @@ func (h *handshakeSessionHandler) handleHandshake(handshake *packet.Handshake, p
 		}
 	}
 
-	vHost := netutil.NewAddr(
-		fmt.Sprintf("%s:%d", handshake.ServerAddress, handshake.Port),
-		h.conn.LocalAddr().Network(),
-	)
+	vHost := virtualHostAddr(handshake.ServerAddress, handshake.Port, h.conn.LocalAddr().Network())
 	handshakeIntent := handshake.Intent()
 	inbound := newInitialInbound(h.conn, vHost, handshakeIntent)
 
@@ -135,6 +133,16 @@ func (h *handshakeSessionHandler) handleHandshake(handshake *packet.Handshake, p
 		// Client wants to join.
 		h.handleLogin(handshake, inbound)
 	}
+}
+
+// virtualHostAddr returns the address (host:port) the client announced in its handshake.
+func virtualHostAddr(serverAddress string, port int, network string) net.Addr {
+	vHost := fmt.Sprintf("%s:%d", serverAddress, port)
+	if strings.Contains(serverAddress, ":") && net.ParseIP(serverAddress) != nil {
+		// A bare IPv6 literal must be bracketed, otherwise host and port can not be split again.
+		vHost = net.JoinHostPort(serverAddress, strconv.Itoa(port))
+	}
+	return netutil.NewAddr(vHost, network)
 }
 
 func (h *handshakeSessionHandler) handleLogin(p *packet.Handshake, inbound *initialInbound) {
